@@ -38,6 +38,9 @@ def _names_start(node):
     return False
 
 
+_ADD_METHODS = {"add": 1, "radd": 1, "sub": -1, "subtract": -1}
+
+
 def _int_const(node):
     if isinstance(node, ast.Constant) and isinstance(node.value, int) and not isinstance(node.value, bool):
         return node.value
@@ -57,6 +60,19 @@ def start_shift(fn):
             c = _int_const(n.right)
             if c is not None:
                 total += c if isinstance(n.op, ast.Add) else -c
+                sites += 1
+        elif (isinstance(n, ast.Call) and isinstance(n.func, ast.Attribute) and n.func.attr in _ADD_METHODS
+              and _names_start(n.func.value) and len(n.args) == 1 and not n.keywords):
+            # pandas / numpy spellings of the same shift: start.add(1), start.sub(1), start.subtract(1)
+            c = _int_const(n.args[0])
+            if c is not None:
+                total += c * _ADD_METHODS[n.func.attr]
+                sites += 1
+        elif (isinstance(n, ast.Call) and ast.unparse(n.func) in ("np.add", "np.subtract") and len(n.args) == 2
+              and _names_start(n.args[0])):
+            c = _int_const(n.args[1])
+            if c is not None:
+                total += c if ast.unparse(n.func) == "np.add" else -c
                 sites += 1
     return total, sites
 
@@ -161,8 +177,9 @@ def extract(repo, o):
     # sorter_chrom rank constants in source order: X/Y rank, one-letter base, longer-name base
     tree, _src = parse(os.path.join(repo, "skgenome", "chromsort.py"))
     fc = find_func(tree, "sorter_chrom")
-    ranks = [c.value for c in ast.walk(fc)
-             if isinstance(c, ast.Constant) and isinstance(c.value, int) and not isinstance(c.value, bool) and c.value >= 100]
+    ranks = [c.value for c in sorted((c for c in ast.walk(fc) if isinstance(c, ast.Constant) and isinstance(c.value, int)
+                                      and not isinstance(c.value, bool) and c.value >= 100),
+                                     key=lambda c: (c.lineno, c.col_offset))]   # source order, whatever the nesting
     o.defn("SORTER_RANKS", "List Nat", "[" + ", ".join(str(r) for r in ranks) + "]",
            "integer constants >= 100 in chromsort.sorter_chrom, in source order (X/Y, 1-letter, longer)")
 
